@@ -135,6 +135,11 @@ def fold_inputs(nfolds):
                 raise DiscoveryFailed('dpseg.segment(nfolds=%d, njobs=1) returned normally although the program exits 1 on fold %d' % (nfolds, k))
             except RuntimeError:
                 pass
+            except DiscoveryFailed:
+                raise
+            except Exception as e:      # noqa: the failure of a fold must surface as RuntimeError, whichever fold it is
+                raise DiscoveryFailed('dpseg.segment(nfolds=%d, njobs=1) raised %s: %s instead of RuntimeError when the program exits 1 on fold %d (of 0..%d), the other folds succeeding'
+                                      % (nfolds, type(e).__name__, e, k, nfolds - 1))
             finally:
                 os.environ.pop('DPSEG_STUB_CAPTURE', None)
                 os.environ.pop('DPSEG_STUB_PLAN', None)
